@@ -39,6 +39,9 @@ pub enum RefErr {
     /// "first of non-cons" raised while iterating an operand list (as_iter / eval)
     ImproperList,
     CostExceeded,
+    /// the program applied (possibly computed at run time) an opcode that ChiaDialect assigns to a post-reference
+    /// operator (29, 30, 48..62, the two 4-byte secp codes): outside the domain of the comparison
+    OutsideDomain,
     Other(String),
 }
 
@@ -536,6 +539,9 @@ fn args_len(args: &S) -> Result<Vec<u128>, RefErr> {
 }
 
 fn default_unknown_op(op: &[u8], args: &S) -> OpR {
+    if (op.len() == 1 && (op[0] == 29 || op[0] == 30 || (48..=62).contains(&op[0]))) || op == [0x13, 0xd6, 0x1f, 0x00] || op == [0x1c, 0x3a, 0x8f, 0x00] {
+        return Err(RefErr::OutsideDomain);
+    }
     if op.is_empty() || (op.len() >= 2 && op[0] == 0xff && op[1] == 0xff) {
         return err("reserved operator");
     }
